@@ -29,6 +29,13 @@ type behaviour struct {
 
 type custom struct{ a, b int }
 
+type colour int
+
+func (c colour) String() string { return [...]string{"red", "green", "blue"}[c%3] }
+
+// the handle the scenario function (setup) received, for behaviours that use it from an iteration
+var scenarioT *f1testing.T
+
 var behaviours = []behaviour{
 	{"pass", false, func(t *f1testing.T) {}},
 	{"Fail", true, func(t *f1testing.T) { t.Fail() }},
@@ -45,6 +52,11 @@ var behaviours = []behaviour{
 	{"panic(struct)", true, func(t *f1testing.T) { panic(custom{1, 2}) }},
 	{"panic(slice)", true, func(t *f1testing.T) { panic([]int{1, 2}) }}, // values that cannot be compared with ==
 	{"panic(struct-holding-a-map)", true, func(t *f1testing.T) { panic(struct{ m map[string]int }{}) }},
+	{"panic(time.Duration)", true, func(t *f1testing.T) { panic(5 * time.Second) }}, // values with a String method
+	{"panic(stringer-enum)", true, func(t *f1testing.T) { panic(colour(2)) }},
+	// marking the scenario-level handle (the one setup got) is not marking this iteration - nor the next ones
+	{"Fail-on-the-setup-handle", false, func(t *f1testing.T) { scenarioT.Fail() }},
+	{"Errorf-on-the-setup-handle", false, func(t *f1testing.T) { scenarioT.Errorf("from iteration %s", t.Iteration) }},
 	{"nil-map-write", true, func(t *f1testing.T) { var m map[string]int; m["x"] = 1 }},
 	{"index-out-of-range", true, func(t *f1testing.T) { var s []int; i := 3; _ = s[i] }},
 	{"nil-func-call", true, func(t *f1testing.T) { var f func(); f() }},
@@ -90,6 +102,7 @@ func runSeq(r *hlib.Rec, seq []int, mode string, conc int) {
 		rs.Flags = map[string]string{"rate": fmt.Sprintf("%d/100ms", conc), "distribution": "none"}
 	}
 	rs.ScenarioFn = func(t *f1testing.T) f1testing.RunFn {
+		scenarioT = t
 		return func(t *f1testing.T) {
 			invocations++
 			id, _ := strconv.Atoi(t.Iteration)
